@@ -627,8 +627,11 @@ impl<'a, 'b> Gen<'a, 'b> {
                         let t = self.tok(&name);
                         tb.push(Node::LocalRef { tok: t, slot });
                     } else {
+                        // the name is resolved where it stands: a definition of the same name nested in the
+                        // statements above (compiled by now) is the one that gets called
+                        let target = self.scope.words.iter().rev().find(|(n, _)| *n == name).map(|x| x.1).unwrap_or(def);
                         let t = self.tok(&name);
-                        tb.push(Node::Call { tok: t, def });
+                        tb.push(Node::Call { tok: t, def: target });
                     }
                     self.tok("else");
                     let eb = vec![self.prim(Prim::Drop)];
